@@ -188,6 +188,23 @@ impl<'tcx> Cx<'tcx> {
                 pty = pty.projection_ty(tcx, elem);
             }
             out2.push(']');
+            // enum ADT of every downcast, in order
+            let mut enums: Vec<String> = Vec::new();
+            let mut pty2 = mir::PlaceTy::from_ty(body.local_decls[p.local].ty);
+            for elem in p.projection.iter() {
+                if let PlaceElem::Downcast(..) = elem {
+                    if let ty::Adt(adt, _) = pty2.ty.kind() {
+                        enums.push(self.path(adt.did()));
+                    } else {
+                        enums.push(self.ty(pty2.ty));
+                    }
+                }
+                pty2 = pty2.projection_ty(tcx, elem);
+            }
+            if !enums.is_empty() {
+                o.key("e");
+                jarr(o.out, enums.iter(), |out, e| jstr(out, e));
+            }
         }
         o.end();
     }
@@ -689,6 +706,9 @@ impl<'tcx> Cx<'tcx> {
                     StatementKind::Assign(b) => {
                         so.key("lhs");
                         self.place(so.out, body, &b.0);
+                        if !b.0.projection.is_empty() {
+                            so.s("lty", &self.ty(b.0.ty(body, self.tcx).ty));
+                        }
                         so.key("rv");
                         self.rvalue(so.out, body, &b.1);
                     }
